@@ -8,5 +8,7 @@ INVARIANT SpanningWhenDefault
 INVARIANT DoneCount
 INVARIANT Corridor
 INVARIANT MetaTruth
+INVARIANT MeasureNat
+PROPERTY Terminates
 CHECK_DEADLOCK FALSE
 INVARIANT PercExtremes
